@@ -122,7 +122,10 @@ class Gen(object):
             return self.color()
 
         def flt():
-            return float(r.choice([0.0, 1.0, 0.5, 20.0, 0.25, 1.5]))
+            if self.o['ints'] or r.random() < 0.5:
+                return float(r.choice([0.0, 1.0, 0.5, 20.0, 0.25, 1.5]))
+            # scalars are Python floats written in full: long mantissas, tiny and huge magnitudes
+            return r.choice([r.uniform(0, 100), round(r.uniform(0, 100), r.randint(5, 9)), r.uniform(0, 1) * 10 ** r.randint(-12, 12), 12.345678, 1e-07, 123456789.125])
         kw = {}
         allowed = {
             'phong': ['emission', 'ambient', 'diffuse', 'specular', 'shininess', 'reflective', 'reflectivity', 'transparent', 'transparency', 'index_of_refraction'],
@@ -223,10 +226,10 @@ class Gen(object):
             elif kind == 'line':
                 g.primitives.append(g.createLineSet(numpy.array(corners(2 * r.randint(0 if not self.o['schema'] else 1, 4)), dtype=numpy.int32), il, mat))
             elif kind == 'polylist':
-                vc = [r.choice([3, 4, 5, 3, 4, 2, 1]) if not self.o['schema'] else r.randint(3, 5) for _ in range(r.randint(1, 3))]
+                vc = [r.choice([3, 4, 5, 3, 4, 2, 1]) if not self.o['schema'] else r.randint(3, 5) for _ in range(r.randint(1 if self.o['schema'] else 0, 3))]
                 g.primitives.append(g.createPolylist(numpy.array(corners(sum(vc)), dtype=numpy.int32), numpy.array(vc, dtype=numpy.int32), il, mat))
             else:
-                polys = [numpy.array(corners(r.randint(3, 5)), dtype=numpy.int32) for _ in range(r.randint(1, 3))]
+                polys = [numpy.array(corners(r.randint(3, 5)), dtype=numpy.int32) for _ in range(r.randint(1 if self.o['schema'] else 0, 3))]
                 g.primitives.append(g.createPolygons(polys, il, mat))
         return g
 
